@@ -25,9 +25,11 @@ SPEC = dict(
               'x 3 length schemes x 4 label rotations. (d) TLV8 payload 0..10 and TLV16 payload 0..8 (encodings <= 12 bytes) x 3 header variants x trailing {0,1,3} bytes x all '
               '2^(n-1) chunkings x 2 tail modes through socketRead (simnet) and fileRead (chunked unbuffered stream), fmemopen, every smaller buffer, every cut stream; '
               'elements of 255/256/65534/65535 bytes. (e) element edits: 9 start trees (0..3 children, tags {1,2,0x20}, lengths {0,3,253}) x origin {parsed, built, built+detached} x every sequence of 1..2 operations '
-              'from {remove tag, append (tag,len), set (tag,len)} (21 operations): serialization after every operation and after a final detach equals the reference encoding; absent / ambiguous tags are refused.',
+              'from {remove tag, append (tag,len), set (tag,len)} (21 operations): serialization after every operation and after a final detach equals the reference encoding; absent / ambiguous tags are refused. (f) tree-codec edits: 6 start trees x origin '
+              '{KSI_TLV_parseBlob, parseBlob2 adopting the buffer, built} x every sequence of 1..2 operations from {expand (getNestedList), collapse (getRawValue), setRawValue of the parent / of child k with lengths {0,3,300}, '
+              'append, replace child k} (32 operations): serialization, raw payload and a clone after every operation equal the reference; a refused operation leaves the tree unchanged.',
         thorough='as quick with: (a) TLV16 declared lengths {0,1,2,3,4,255,256,257,1000} for every prefix and {65534,65535} for second byte 00/80/ff; (b2a) 0..3 children '
-                 '(4.9 M trees); (b4) leaf lengths {0,1,254,255,256,257}; buffer sizes additionally {1,need-2,need+2}; (c) all 85 shapes with 1..3 children; (e) sequences of 1..3 operations.'),
+                 '(4.9 M trees); (b4) leaf lengths {0,1,254,255,256,257}; buffer sizes additionally {1,need-2,need+2}; (c) all 85 shapes with 1..3 children; (e), (f) sequences of 1..3 operations.'),
     technique='bounded-exhaustive input enumeration on the compiled code (ASan/UBSan, exactly sized heap buffers, canary areas), compared with an independent reference TLV tree encoder/decoder',
     level_text='Every element of the stated finite spaces is executed on the real libksi object code and compared with an independent ~250 line reference model of the TLV '
                'tree encoding (sizes computed without truncation, canonical header choice, exact-tiling decoder). The property is a universally quantified input/output relation of '
@@ -40,7 +42,7 @@ SPEC = dict(
                       'b1:hdr:two-byte', 'b1:hdr:four-byte', 'b1:tree:oversize-root', 'b2a:ser:refused-short-buffer', 'b2b:tree:oversize-root', 'b2b:tree:fits',
                       'b3:tree:oversize-inner', 'b3:tree:oversize-root', 'b3:tree:fits', 'b4:parseback:elem', 'b5:parseback:ftlv', 'b5:clone:ok', 'b6:tree:oversize-inner',
                       'c:parseBlob:reject-short-payload', 'c:parseBlob:reject-incomplete-header', 'c:parseBlob:reject-trailing', 'c:expand:reject-untiled', 'c:memReadN:ok',
-                      'e:edit:applied', 'e:edit:refused-absent-or-ambiguous', 'd:stream:socket:ok', 'd:stream:socket:reject', 'd:stream:file:ok', 'd:stream:file:reject', 'd:stream:cookie:ok'],
+                      'e:edit:applied', 'f:edit:applied', 'e:edit:refused-absent-or-ambiguous', 'd:stream:socket:ok', 'd:stream:socket:reject', 'd:stream:file:ok', 'd:stream:file:reject', 'd:stream:cookie:ok'],
     assumptions=['the reference TLV tree model (harness/ref/ref_tlvtree.c) is a faithful transcription of the KSI TLV encoding rules',
                  'an output buffer of exactly the needed size is adequate (a serializer may refuse only smaller buffers or trees that do not fit)',
                  'KSI_FTLV_memRead / memReadN are prefix readers (one element from a possibly longer buffer); KSI_TLV_parseBlob and KSI_TlvElement_parse take the whole input as one element'],
